@@ -1610,7 +1610,7 @@ func ruleHeaderFooterDetectionEvaluated(c *eng.Ctx) {
 // R6.18 [C06, C02]
 func ruleTruncatedContentEvaluated(c *eng.Ctx) {
 	const R = "R6.18-TRUNCATED-CONTENT-EVALUATED"
-	c.Rule(R, "contentstream.NewParser(data).Parse, evaluated on every prefix of a set of content streams (text operators with literal and hex strings, escapes and octal codes, arrays with numbers and strings, names with #xx, dictionaries and inline-image-like operands, comments, reals with signs and leading points, nested arrays): every prefix is answered with operations or an error - the parser never reads past the end of a stream that is cut off", 1, 0)
+	c.Rule(R, "contentstream.NewParser(data).Parse, evaluated on every prefix of a set of content streams (text operators with literal and hex strings, escapes and octal codes, arrays with numbers and strings, names with #xx, dictionaries and inline-image-like operands, comments, reals with signs and leading points, nested arrays, stray closing delimiters where an operator is expected, bad digits in hex strings): every prefix is answered with operations or an error within a bounded number of steps - the parser never reads past the end of a stream that is cut off and never stays on one byte", 1, 0)
 	newCS := c.P.FuncExact("contentstream.NewParser")
 	parseCS := c.P.FuncExact("contentstream.(*Parser).Parse")
 	if newCS == nil || parseCS == nil || len(newCS.Params) != 1 || len(parseCS.Params) != 1 {
@@ -1624,6 +1624,10 @@ func ruleTruncatedContentEvaluated(c *eng.Ctx) {
 		"/Tag << /MCID 3 /Name /A#42 /K [1 2 <</X (y)>>] >> BDC EMC\n[ [1 [2 3]] (a(b)c) ] TJ",
 		"10 20 m 30 40 l 10 10 50 50 re S f* B* W n <> Tj () Tj -0 Tw 00012 Tz",
 		"true false null /N Tj (line\\\ncontinued \\8 \\) ) Tj <4> Tj",
+		// delimiters where an operator is expected, and bad digits in a hex string
+		"BT (Hello) Tj ) (World) Tj ET",
+		"BT > Tj ] Tj } Tj { Tj >> Tj ET",
+		"<4z5> Tj <zz Tj (a) Tj",
 	}
 	n, bad, skipped := 0, "", ""
 	for _, s := range streams {
@@ -1634,6 +1638,10 @@ func ruleTruncatedContentEvaluated(c *eng.Ctx) {
 			p, err := ev.Call(newCS, []any{eng.BytesOf([]byte(s[:k]))}, 0)
 			if err == nil {
 				_, err = ev.Call(parseCS, []any{p}, 0)
+			}
+			if err != nil && !err.Panic && strings.Contains(err.Msg, "step budget") {
+				bad = fmt.Sprintf("the stream %q (cut off after %d bytes): the parser is still running after 600000 steps (a whole stream takes a few thousand)", s[:k], k)
+				break
 			}
 			if err != nil && !err.Panic {
 				skipped = fmt.Sprintf("%q: %s", s[:k], err.Msg)
